@@ -483,6 +483,7 @@ func Run(ctx *core.Ctx) {
 	matrix(ctx, bin, "sigterm", false)
 	matrix(ctx, bin, "kill9", false)
 	matrix(ctx, bin, "sigterm", true)
+	shaFenceRow(ctx, bin)
 	nq := ctx.Pick(10, 300)
 	par := 6
 	var wg sync.WaitGroup
